@@ -1,6 +1,7 @@
 package object
 
 import (
+	"bytes"
 	"context"
 	"encoding/json"
 	"fmt"
@@ -214,6 +215,14 @@ func (s *String) Interface() interface{} {
 }
 
 func (s *String) Compare(other Object) (int, error) {
+	// The byte-oriented types compare themselves with a string; the string
+	// compares itself with them the same way, so that a < b and b > a agree
+	switch other := other.(type) {
+	case *ByteSlice:
+		return bytes.Compare([]byte(s.value), other.value), nil
+	case *Buffer:
+		return bytes.Compare([]byte(s.value), other.value.Bytes()), nil
+	}
 	otherStr, ok := other.(*String)
 	if !ok {
 		return 0, errz.TypeErrorf("type error: unable to compare string and %s", other.Type())
@@ -229,6 +238,10 @@ func (s *String) Compare(other Object) (int, error) {
 
 func (s *String) Equals(other Object) Object {
 	if other.Type() == STRING && s.value == other.(*String).value {
+		return True
+	}
+	// byte_slice("a") == "a" holds, so "a" == byte_slice("a") does too
+	if otherBytes, ok := other.(*ByteSlice); ok && bytes.Equal([]byte(s.value), otherBytes.value) {
 		return True
 	}
 	return False
